@@ -70,7 +70,15 @@ theorem offending_data_closes_or_resets (cfg : Cfg) (conn : Conn) (ctx : World) 
     · simp only []
       split
       · left; rfl
-      · cases cfg.frontend <;> first | (right; exact ⟨rfl, rfl⟩) | (left; simp_all)
+      · cases cfg.frontend <;> first | (right; exact ⟨rfl, rfl⟩) | (left; simp_all [resnap])
+
+/-- a connection that was just accepted filters with the units hosted now, whichever way the front-end reads them -/
+theorem openConn_units (cfg : Cfg) (w : World) :
+    (openConn cfg w).snap.getD (acceptedUnits cfg w.units) = acceptedUnits cfg w.units ∧
+    (openConn cfg w).buf = [] ∧ (openConn cfg w).running = true := by
+  unfold openConn resnap
+  refine ⟨?_, rfl, rfl⟩
+  split <;> rfl
 
 theorem decServer_eq : decServer = (fun pdu => (Impl.decReq pdu).map some) := by
   funext pdu
@@ -93,8 +101,9 @@ theorem fresh_connection_probe_tcp (cfg : Cfg) (hf : cfg.framer = .tcp) (w : Wor
     (s : SlaveCtx) (hs : w.units.getItem uid = .ok s) (hb : C10.bcast cfg uid = false)
     (f : Bytes) (hfr : frameResp cfg (Impl.serverExecute s (PduSpec.normReq r)).2 uid tid pid = .ok f) :
     ∃ data, Impl.encReq r = .ok data ∧
-      (connStep cfg { buf := [] } w (tcpFrame tid pid uid r.fc data)).2.2 = ([f], none) ∧
-      (connStep cfg { buf := [] } w (tcpFrame tid pid uid r.fc data)).1 = { buf := [], running := true } := by
+      (connStep cfg (openConn cfg w) w (tcpFrame tid pid uid r.fc data)).2.2 = ([f], none) ∧
+      (connStep cfg (openConn cfg w) w (tcpFrame tid pid uid r.fc data)).1.buf = [] ∧
+      (connStep cfg (openConn cfg w) w (tcpFrame tid pid uid r.fc data)).1.running = true := by
   obtain ⟨data, he, hfeed⟩ := C03.request_roundtrip_tcp r hp hw hd tid pid uid (acceptedUnits cfg w.units) w.units.single hu
   refine ⟨data, he, ?_⟩
   have hex := C09.execAny_dataAccess w.ctl s (PduSpec.normReq r) hda
@@ -112,11 +121,10 @@ theorem fresh_connection_probe_tcp (cfg : Cfg) (hf : cfg.framer = .tcp) (w : Wor
       (countMessage cfg (afterExec w uid (Impl.serverExecute s (PduSpec.normReq r)).1), [f], none) := by
     rw [C09.handle_cons_ok [] hcb hsr hfr]
     simp [handleEvents]
+  obtain ⟨ho1, ho2, ho3⟩ := openConn_units cfg w
   unfold connStep
-  simp only [Bool.not_true, Bool.false_eq_true, if_false, hl, hf, reduceCtorEq, hstep, decServer_eq, hfeed, hh]
-  constructor
-  · trivial
-  · simp
+  simp only [ho1, ho2, ho3, Bool.not_true, Bool.false_eq_true, if_false, hl, hf, reduceCtorEq, hstep, decServer_eq, hfeed, hh]
+  refine ⟨trivial, ?_, ?_⟩ <;> simp [resnap]
 
 /-- the framings a server front-end can be configured with, as the `Framing` of the receive-loop theory -/
 def framingOf : FramerKind → Option C06.Framing
@@ -135,8 +143,8 @@ theorem fresh_connection_probe (cfg : Cfg) (F : C06.Framing) (hF : framingOf cfg
     (hda : isDataAccess f.msg = true)
     (s : SlaveCtx) (hs : w.units.getItem f.uid = .ok s) (hbc : C10.bcast cfg f.uid = false)
     (g : Bytes) (hfr : frameResp cfg (Impl.serverExecute s f.msg).2 f.uid f.tid f.pid = .ok g) :
-    (connStep cfg { buf := [] } w f.bytes).2.2 = ([g], none) ∧
-    (connStep cfg { buf := [] } w f.bytes).1 = { buf := [], running := true } := by
+    (connStep cfg (openConn cfg w) w f.bytes).2.2 = ([g], none) ∧
+    (connStep cfg (openConn cfg w) w f.bytes).1.buf = [] ∧ (connStep cfg (openConn cfg w) w f.bytes).1.running = true := by
   have hfeed := C03.whole_packet_delivers F decServer (acceptedUnits cfg w.units) w.units.single f hb
   have hex := C09.execAny_dataAccess w.ctl s f.msg hda
   have hcb : callback cfg w f.msg f.uid =
@@ -155,11 +163,10 @@ theorem fresh_connection_probe (cfg : Cfg) (F : C06.Framing) (hF : framingOf cfg
     cases hk : cfg.framer <;> rw [hk] at hF <;> simp only [framingOf, Option.some.injEq, reduceCtorEq] at hF
     all_goals subst hF
     all_goals exact ⟨by funext buf; rfl, by simp⟩
+  obtain ⟨ho1, ho2, ho3⟩ := openConn_units cfg w
   unfold connStep
-  simp only [Bool.not_true, Bool.false_eq_true, if_false, hl, hstep.2, hstep.1, hfeed, hh]
-  constructor
-  · trivial
-  · simp
+  simp only [ho1, ho2, ho3, Bool.not_true, Bool.false_eq_true, if_false, hl, hstep.2, hstep.1, hfeed, hh]
+  refine ⟨trivial, ?_, ?_⟩ <;> simp [resnap]
 
 def ctl0 : Control := { counters := List.replicate 9 0, diagReg := List.replicate 16 false, plus := List.replicate 54 0, ident := [] }
 
